@@ -350,6 +350,9 @@ class TModel(SModel):
         return super().lane_arg(part, e)
 
     def for_loop(self, iterable, pat, body, frame, e):
+        return self.loop_call(frame, lambda: SModel.for_loop(self, iterable, pat, body, frame, e))
+
+    def loop_call(self, frame, thunk):
         carried = {}
         f = frame
         while f is not None:
@@ -361,7 +364,7 @@ class TModel(SModel):
         for k, v in carried.items():
             v.d['cell']['r'] = Rat.atom('carry:' + k.split('#')[0])
         gen_before = {id(t): len(t.generic) for t in self.arrays}
-        r = super().for_loop(iterable, pat, body, frame, e)
+        r = thunk()
         lp = self.loops[-1]
         post = {k: v.d['cell']['r'] for k, v in carried.items()}
         changed = {k for k in carried if str(post[k]) != 'carry:' + k.split('#')[0]}
@@ -829,12 +832,13 @@ def extract_ab(chk, lib, rule):
     if ex is not None or not (isinstance(out, Enum) and out.variant == 'Ok'):
         chk.ob(rule, "calc_coefficients is within the reviewed surface: %s" % ex, False, ex.where if ex else where, 'coeff-unrecognised')
         return None
-    tup = deref_all(out.fields['0'])
-    ok = isinstance(tup, Tup) and len(tup.items) == 2 and all(isinstance(deref_all(z), Obj) and deref_all(z).kind == 'arr2' for z in tup.items)
+    from ..strategies import aggregate_arrays
+    items = aggregate_arrays(lib, out.fields['0']) or []
+    ok = len(items) == 2 and all(isinstance(deref_all(z), Obj) and deref_all(z).kind == 'arr2' for z in items)
     if not chk.ob(rule, "calc_coefficients returns the two coefficient arrays", ok, where, 'coeff-shape'):
         return None
     res = []
-    for z in tup.items:
+    for z in items:
         t = deref_all(z).d['t']
         g = [g for g in t.generic if isinstance(g['value'], Rat)]
         if not chk.ob(rule, "each coefficient array is filled by one loop over the intervals", len(g) == 1 and not t.store, where, 'coeff-loop'):
@@ -933,6 +937,9 @@ class IndModel(SModel):
                 self.cmp_events.append(('ndim', sa, op, c))
                 return deep if op == 'gt' else (not deep)
             raise Unsupported("rank test %s %s %s (only `ndim > 1` is tabulated)" % (a, op, b), e)
+        if isinstance(a, Num) and isinstance(b, Num) and getattr(self, 'lane_counter', None) and str(a.r) == self.lane_counter and op == 'lt':
+            self.lane_bound = str(b.r)
+            return True       # the inductive step of the loop over the lanes runs under its condition
         return super().compare(op, a, b, e)
 
     def call(self, name, cal, args, e, frame):
@@ -946,6 +953,13 @@ class IndModel(SModel):
                 axv = str(deref_all(ax.fields['0']).r) if isinstance(ax, Enum) else repr(ax)
                 self.iter_axes.append((a0.d['role'], axv))
                 return Obj('dyniter', of=a0, axis=axv)
+            if last in ('index_axis', 'index_axis_mut', 'index_axis_move') and isinstance(deref_all(args[2]), Num) and \
+                    getattr(self, 'lane_counter', None) and str(deref_all(args[2]).r) == self.lane_counter:
+                # the lane the loop is at, selected by index: same as one element of axis_iter over that axis
+                ax = deref_all(args[1])
+                axv = str(deref_all(ax.fields['0']).r) if isinstance(ax, Enum) else repr(ax)
+                self.iter_axes.append((a0.d['role'], axv))
+                return Obj('dyn', role=a0.d['role'], depth=a0.d['depth'] + 1, parent_axis=axv)
             if last == 'first' and a0.d['role'] == 'boundary':
                 import copy
                 return SOME(Ref(ValPlace(copy.deepcopy(self.scn['row_boundary']))))
@@ -998,6 +1012,35 @@ def _indmodel_for_loop(self, iterable, pat, body, frame, e):
 
 
 IndModel.for_loop = _indmodel_for_loop
+
+
+def _indmodel_plain_loop(self, body, frame, e):
+    """`while lane < lanes { ...index_axis(ax, lane)...; lane += 1 }`: one inductive step with a symbolic lane number"""
+    cands = {}
+    f = frame
+    while f is not None:
+        for k_, v_ in f.vars.items():
+            if isinstance(v_, Num) and v_.const() == 0 and k_ not in cands:
+                cands[k_] = f
+        f = f.parent
+    if len(cands) != 1:
+        raise Unsupported("`loop`/`while` is not modelled (no single lane counter starting at 0)", e)
+    k_, f0 = list(cands.items())[0]
+    f0.vars[k_] = Num(A('lane*'))
+    self.lane_counter, self.lane_bound = 'lane*', None
+    self.loop_form = True
+    try:
+        self.interp.eval(body, Frame(frame))     # an error leaves through an early return
+    finally:
+        self.lane_counter = None
+    now = f0.vars[k_]
+    if not (isinstance(now, Num) and now.r == A('lane*') + 1 and self.lane_bound == str(A('len(k)'))):
+        raise Unsupported("the loop over the lanes does not run from 0 to the length of k's last axis in steps of one", e)
+    self.loop_form = True
+    return Unit()
+
+
+IndModel.plain_loop = _indmodel_plain_loop
 
 
 def check_dispatcher(chk, lib, rule):
@@ -1104,10 +1147,10 @@ def piece_in_k(lib):
     m, out, ex, _ = run_calc(lib, 'NotAKnot')
     if ex is not None or not (isinstance(out, Enum) and out.variant == 'Ok'):
         return None
-    tup = deref_all(out.fields['0'])
+    from ..strategies import aggregate_arrays
     try:
         ab = []
-        for z in tup.items:
+        for z in aggregate_arrays(lib, out.fields['0']):
             t = deref_all(z).d['t']
             g = [g for g in t.generic if isinstance(g['value'], Rat)][0]
             ab.append(reindex(g['value'], {g['var']: A('i_x')}))
